@@ -265,6 +265,7 @@ let p_op () = match next () with
   | "sch" -> let d = p_dl () in let i = nnat () in let e = p_expr () in let sl = nopt_nat () in let pe = nopt_z () in
       OSched (d, i, e, sl, pe)
   | "can" -> OCancel (nnat ())
+  | "cau" -> OCancel (nnat ())    (* harness: the model's own key is turned into an AutoActionKey and dropped *)
   | "pan" -> OPanic (nz ())
   | t -> failwith ("op " ^ t)
 (* "nst <threads> <k>": a nested simulation built, run and dropped inside the handler (harness only);
@@ -285,12 +286,20 @@ let p_model () =
   expect "Q"; let qs = plist (fun () -> plist p_qconn) in
   { mcap = cap; mplace = place; mparent = parent; mnamed = named; minit = init; mhandlers = hs;
     mrepliers = rs; mouts = os; mreqs = qs }
+let key_alias : (nat * nat) list ref = ref []
+let alias_of s = (try List.assoc s !key_alias with Not_found -> s)
 let p_cmd () = match next () with
   | "se" -> let d = p_dl () in let m = nnat () in let i = nnat () in let v = nz () in
       let sl = nopt_nat () in let pe = nopt_z () in CSchedEvent (d, m, i, v, sl, pe)
   | "ss" -> let d = p_dl () in let src = nnat () in let v = nz () in
       let sl = nopt_nat () in let pe = nopt_z () in CSchedSrc (d, src, v, sl, pe)
-  | "cn" -> CCancel (nnat ())
+  | "cn" -> CCancel (alias_of (nnat ()))
+  (* harness-only refinements of cancellation, equivalent for the model: "ca s" = the key of slot s is turned
+     into an AutoActionKey and dropped (= cancel); "ck a b" = slot b receives a CLONE of the key of slot a: the
+     model has no clones - the alias is resolved here and the command itself becomes the cancellation of slot 7,
+     which the generators keep empty *)
+  | "ca" -> CCancel (alias_of (nnat ()))
+  | "ck" -> let a = nnat () in let b = nnat () in key_alias := (b, alias_of a) :: !key_alias; CCancel (nat_of_int 7)
   | "st" -> CStep
   | "su" -> CStepUntil (p_dl ())
   | "pe" -> let m = nnat () in let i = nnat () in let v = nz () in CProcEvent (m, i, v)
@@ -331,7 +340,7 @@ let obs_str o =
     (String.concat " " (List.map entry_str o.olog)) (if o.ondet then 1 else 0)
 
 let run_sim ws =
-  toks := ws;
+  toks := ws; key_alias := [];
   let _threads = next () in  (* "<n>" or "<n>d<seed>..." (delay spec, harness only) *)
   let fuel = nint () in
   let t0 = nz () in
